@@ -35,6 +35,7 @@ func main() {
 		return
 	}
 	w := out.New(*outDir)
+	w.Samples = []string{} // never null in stats.json (the driver slices it)
 	defer w.Close()
 	switch *mode {
 	case "scan":
